@@ -92,7 +92,7 @@ theorem nocap_content_exhausted (c : Content) : NoCap c.exhausted := by
 theorem nocap_processNextValue (c : Cons) (expected : Option Tag)
     (op : Tag → Content → Prog (α × Content)) (hop : ∀ t k, NoCap (op t k)) :
     NoCap (processNextValue c expected op) := by
-  unfold processNextValue
+  unfold processNextValue processValueBody
   have := nocap_isExhausted c
   have := nocap_takeOptTag c
   have h3 := nocap_length_takeFrom c.mode
